@@ -40,6 +40,7 @@ type c09Case struct {
 	EOF      []bool `json:"eof"`      // true: clean end of stream, false: reset
 	Existing bool   `json:"existing"` // a complete file of that name already exists
 	NoResume bool   `json:"noresume"` // ask to resume although nothing was uploaded
+	OwnRoot  bool   `json:"ownroot"`  // the uploading account has its own file root; the server-wide root holds a same-named decoy partial
 }
 
 func c09Run(w *explore.Worker, c c09Case) {
@@ -55,9 +56,13 @@ func c09Run(w *explore.Worker, c c09Case) {
 	seqChecked(w, "C09", "upload", c, func() {
 		wd := world.New(world.Cfg{
 			PreserveForks: c.Preserve,
-			Accounts:      []world.Acct{{Login: "guest", Name: "Guest"}, {Login: "u", Name: "u", Password: "pw", Access: world.AllAccess}},
+			Accounts: []world.Acct{{Login: "guest", Name: "Guest"}, {Login: "u", Name: "u", Password: "pw", Access: world.AllAccess, FileRoot: map[bool]string{true: "$CONFIG/Rroot", false: ""}[c.OwnRoot]}},
 			Files: func(root string) {
 				_ = os.MkdirAll(filepath.Join(root, "Uploads"), 0755)
+				if c.OwnRoot {
+					_ = os.MkdirAll(filepath.Join(filepath.Dir(root), "Rroot", "Uploads"), 0755)
+					_ = os.WriteFile(filepath.Join(root, "Uploads", "up.bin.incomplete"), []byte("DEC"), 0644) // decoy in the server-wide root
+				}
 				if c.Existing {
 					_ = os.WriteFile(filepath.Join(root, "Uploads", "up.bin"), []byte("precious original"), 0644)
 				}
@@ -70,6 +75,9 @@ func c09Run(w *explore.Worker, c c09Case) {
 			return
 		}
 		final := filepath.Join(wd.FileRoot, "Uploads", "up.bin")
+		if c.OwnRoot {
+			final = filepath.Join(wd.ConfigDir, "Rroot", "Uploads", "up.bin")
+		}
 		partial := final + ".incomplete"
 		delivered := 0 // data-fork bytes the server has been given so far
 		var obs []string
@@ -312,6 +320,12 @@ func c09Cases(thorough bool) []c09Case {
 				}
 			}
 			cs = append(cs, c09Case{Size: sz, Rsrc: variant.rsrc, Preserve: variant.pres}) // uncut
+			if sz == 8 || sz == 40 {
+				cs = append(cs, c09Case{Size: sz, Rsrc: variant.rsrc, Preserve: variant.pres, OwnRoot: true})
+				for _, k := range offs {
+					cs = append(cs, c09Case{Size: sz, Rsrc: variant.rsrc, Preserve: variant.pres, Cuts: []int{k}, EOF: []bool{k%2 == 0}, OwnRoot: true})
+				}
+			}
 		}
 		cs = append(cs, c09Case{Size: sz, Existing: true}, c09Case{Size: sz, NoResume: true})
 	}
